@@ -11,8 +11,10 @@ real parsers:
      spelling each), as root and in a forked child running as uid nobody; plus the same kinds through a parser argument;
  (3) relative-path clause (c19_nest): chains of up to 3 nested files in all assignments of directories, reached through
      --config / parse_path / default_config_files / parse_string / a sub-config argument, nested through ActionParser,
-     dataclass group, subclass argument or list file; one slot per case invalid or broken; cwd and the context
-     variable compared before / after every parse;
+     dataclass group, subclass argument or list file; one slot per case invalid or broken, or one level appending to
+     its list of paths with `files+:`; parse_path also given Path / os.PathLike objects that remember another
+     directory; cwd and the context variable compared before / after every parse; nested relative_path_context()
+     blocks of Path objects created here, elsewhere or with cwd=;
  (4) the admission rule of the mode language itself (every string of up to 4 / 5 characters).
 
 Judged by the mode predicate of c19_oracle (written from the documented flag meanings).
@@ -623,6 +625,11 @@ def nest_item(arg):
             out["n"] += 1
             key = f"nest:{info['kind']}:{'valid' if info['want_ok'] else 'invalid'}"
             out["counters"][key] = out["counters"].get(key, 0) + 1
+            for axis in ("app", "entry"):
+                if axis in case:
+                    val = case[axis] if axis == "entry" else case[axis][1]
+                    key = f"axis:{axis}={val}:{info['kind']}:{'valid' if info['want_ok'] else 'invalid'}"
+                    out["counters"][key] = out["counters"].get(key, 0) + 1
             out["devs"] += [(s, case, d) for s, d in devs]
     return _shrink(out)
 
@@ -636,6 +643,9 @@ def ctx_item(arg):
             out["n"] += 1
             key = f"ctx:entered={info['entered']}:{'raised' if info['raised'] else 'returned'}"
             out["counters"][key] = out["counters"].get(key, 0) + 1
+            if info["entered"] == len(case["steps"]):
+                for step in set(case["steps"]):
+                    out["counters"]["axis:ctx-step-entered=" + step] = out["counters"].get("axis:ctx-step-entered=" + step, 0) + 1
             out["devs"] += [(s, case, d) for s, d in devs]
     return _shrink(out)
 
@@ -825,6 +835,9 @@ def explore(ctx):
             "nest_depth": 3,
             "nest_dirs": c19_nest.DIRS[tier],
             "nest_matrix": [list(p) for p in c19_nest.matrix(tier)],
+            "nest_append_modes": c19_nest.APPEND_MODES,
+            "nest_entry_forms": c19_nest.ENTRY_FORMS,
+            "context_steps": c19_nest.CTX_STEPS,
             "admission_string_length": 4 if ctx.quick else 5,
         },
         per_part_evaluations=total,
@@ -856,6 +869,21 @@ def explore(ctx):
         ctx.require(counters.get("real:nobody:flag:R:holds", 0) > 0 and counters.get("real:nobody:flag:W:holds", 0) > 0, "uid nobody: R and W hold somewhere (permission bits deny)")
         ctx.require(counters.get("real:nobody:accept", 0) > 1000, "uid nobody: accepted constructions")
     ctx.require(counters.get("nest:ok:valid", 0) > 100 and counters.get("nest:ArgumentError:invalid", 0) > 100, "nested configs: both accepted and rejected layouts")
+    def _axis(name, verdict):
+        return sum(v for k, v in counters.items() if k.startswith(f"axis:{name}:") and k.endswith(":" + verdict))
+
+    for mode in c19_nest.APPEND_MODES:
+        ctx.require(counters.get(f"axis:app={mode}:ok:valid", 0) > 10, f"'files+' appends inside config files ({mode}): valid layouts are accepted")
+    ctx.require(_axis("app=after-set", "invalid") > 10 and _axis("app=onto-argv", "invalid") > 10, "'files+' appends inside config files: layouts with an invalid appended item occur")
+    for form in c19_nest.ENTRY_FORMS[1:]:
+        if ctx.quick and form == "path-cwdarg":
+            continue
+        ctx.require(
+            counters.get(f"axis:entry={form}:ok:valid", 0) > 10 and counters.get(f"axis:entry={form}:ArgumentError:invalid", 0) > 10,
+            f"parse_path given the entry file as {form}: both successful and failing parses",
+        )
+    for step in c19_nest.CTX_STEPS:
+        ctx.require(counters.get("axis:ctx-step-entered=" + step, 0) > 10, f"context manager: step kind {step} entered in fully entered sequences")
     ctx.require(counters.get("ctx:entered=3:raised", 0) > 10 and counters.get("ctx:entered=3:returned", 0) > 10, "context manager: 3 nested blocks entered, with and without exception")
     ctx.require(counters.get("parser:ok", 0) > 100 and counters.get("parser:ArgumentError", 0) > 100, "parser level: both accepted and rejected paths")
     ctx.require(counters.get("admission:valid", 0) > 100 and counters.get("admission:invalid", 0) > 100, "mode admission: valid and invalid strings")
